@@ -158,8 +158,9 @@ def build(scn: dict):
 class Probe:
     """A MinimizerProtocol that evaluates the residual once per given point and reports the first."""
 
-    def __init__(self, points: list[dict]):
+    def __init__(self, points: list[dict], report: int = 0):
         self.points = points
+        self.report = report
         self.values: list[float] = []
 
     def __call__(self, residual_fn, p0, bounds):
@@ -167,15 +168,18 @@ class Probe:
         from mxlpy.types import Result
 
         self.values = [float(residual_fn(dict(pt))) for pt in self.points]
-        return Result(OptimisationState(parameters=dict(self.points[0]), residual=self.values[0]))
+        return Result(OptimisationState(parameters=dict(self.points[self.report]), residual=self.values[self.report]))
 
 
-def evaluate_at(model, kind: str, kw: dict, point: dict, loss_name: str, scaled: bool) -> float:
-    """Residual at ``point`` through the public fit routine with a one-evaluation minimiser (on a copy)."""
+def evaluate_at(model, kind: str, kw: dict, point: dict, loss_name: str, scaled: bool, before: dict | None = None) -> float:
+    """Residual at ``point`` through the public fit routine with a one-evaluation minimiser (on a copy).
+
+    ``before``: another candidate the residual is evaluated at FIRST (same call, same working model): the residual is a
+    function of the candidate, so the value at ``point`` must not remember it."""
     from mxlpy import fit
     from mxlpy.fit import losses
 
-    pr = Probe([point])
+    pr = Probe([point]) if before is None else Probe([before, point], report=1)
     res = getattr(fit, kind)(model, p0=dict(point), minimizer=pr, loss_fn=getattr(losses, loss_name),
                              standard_scale=scaled, **kw)
     val = res.value
@@ -251,3 +255,57 @@ class RecordingLoss:
         r = self.base(a, b)
         self.log.append(float(r))
         return r
+
+
+# ---- joint fits (FitJoint.tla) -----------------------------------------------------------------------
+def norm_joint(p: dict) -> dict:
+    q = dict(p)
+    q["exps"] = [dict(e) for e in seq(p["exps"])]
+    q["eff"] = [dict(e) for e in seq(p["eff"])]
+    q["data"] = [[seq(g) for g in seq(t)] for t in seq(p["data"])]
+    q["pred"] = [[seq(g) for g in seq(t)] for t in seq(p["pred"])]
+    q["exp"] = [dict(e) for e in seq(p["exp"])]
+    q["times"] = [int(t) for t in seq(p["times"])]
+    q["prot"] = [{"dur": int(s["dur"]), "A": dict(s["A"])} for s in seq(p["prot"])]
+    return q
+
+
+def _opt(r):
+    """A rational or the specification's 'not given'."""
+    return None if int(r["d"]) == 0 else float(fr(r))
+
+
+def build_joint(js: dict):
+    """Real FitSettings list + call arguments for a FitJoint.tla scenario. Returns (routine, to_fit, kwargs, p0)."""
+    import pandas as pd
+    from mxlpy import Model, fit, make_protocol
+    from mxlpy.fit import losses
+
+    kind = js["kind"]
+    to_fit = []
+    for e, data in zip(js["exps"], js["data"]):
+        m = Model()
+        if kind == "ssc":
+            m.add_variables({"x1": float(fr(e["minit"])), "x2": float(fr(js["x2"]))})
+            m.add_parameters({"k1": float(js["jt"]), "k2": 1.0})
+            m.add_reaction("v1", mass_action, args=["k1", "x1"], stoichiometry={"x1": -1.0, "x2": 1.0})
+            m.add_reaction("v2", mass_action, args=["k2", "x2"], stoichiometry={"x2": -1.0, "x1": 1.0})
+            d = pd.Series({"x1": float(fr(data[0][0])), "x2": float(fr(data[0][1]))})
+        else:
+            a0 = js["A"] if kind == "tc" else js["prot"][0]["A"]
+            m.add_variable("x1", float(fr(e["minit"])))
+            m.add_parameters({"a1": float(fr(a0)) * LN2, "k1": float(js["jt"]) * LN2})
+            m.add_reaction("in1", const, args=["a1"], stoichiometry={"x1": 1.0})
+            m.add_reaction("out1", mass_action, args=["k1", "x1"], stoichiometry={"x1": -1.0})
+            d = pd.DataFrame({"x1": [float(fr(v)) for v in data[0]]}, index=[float(t) for t in js["times"]])
+        y0 = _opt(e["y0"])
+        kw = {}
+        if kind == "ptc":
+            kw["protocol"] = make_protocol([(float(s["dur"]), {"a1": float(fr(s["A"])) * LN2}) for s in js["prot"]])
+        to_fit.append(fit.FitSettings(model=m, data=d, y0=None if y0 is None else {"x1": y0},
+                                      loss_fn=None if e["loss"] == "none" else getattr(losses, e["loss"]), **kw))
+    y0d = _opt(js["dflt"]["y0"])
+    kwargs = {"y0": None if y0d is None else {"x1": y0d}, "loss_fn": getattr(losses, js["dflt"]["loss"])}
+    routine = {"tc": "joint_time_course", "ptc": "joint_protocol_time_course", "ssc": "joint_steady_state"}[kind]
+    p0 = {"k1": float(js["jc"]) * (1.0 if kind == "ssc" else LN2)}
+    return routine, to_fit, kwargs, p0
